@@ -47,6 +47,7 @@ def pt : R (Option (Int × Int)) := do
 def ptS : Option (Int × Int) → String | none => "0" | some (x, y) => s!"1 {x} {y}"
 
 def genOps3 : List (String × R String) := [
+  ("g:rmd", do let b ← bytes; pure (ans hex (Gen.rmd_ripemd160 b))),
   ("g:pt_add", do let a ← pt; let b ← pt; pure (ans ptS (Gen.schnorr_point_add a b))),
   ("g:pt_mul", do let a ← pt; let k ← int; pure (ans ptS (Gen.schnorr_point_mul a k))),
   ("g:lift_x", do let x ← int; pure (ans ptS (Gen.schnorr_lift_x x))),
